@@ -50,7 +50,7 @@ def r6(ctx, rep):
                 continue
             encl = qn.split('.<locals>')[0].rsplit('.', 1)[0] if '.' in qn.split('.<locals>')[0] else None
             for lc in local:
-                pubs, qsets, msets = [], [], []
+                pubs, sets = [], []
                 for st in astq.walk_no_nested(fn):
                     if isinstance(st, ast.Assign) and isinstance(st.value, ast.Name) and st.value.id == lc.name:
                         for t in st.targets:
@@ -61,11 +61,9 @@ def r6(ctx, rep):
                             isinstance(st.args[1], ast.Constant):
                         pubs.append((st.args[0].id, st.args[1].value, st))
                     if isinstance(st, ast.Assign) and len(st.targets) == 1 and isinstance(st.targets[0], ast.Attribute) and \
-                            isinstance(st.targets[0].value, ast.Name) and st.targets[0].value.id == lc.name:
-                        if st.targets[0].attr == '__qualname__':
-                            qsets.append(st)
-                        elif st.targets[0].attr == '__module__':
-                            msets.append(st)
+                            isinstance(st.targets[0].value, ast.Name) and st.targets[0].value.id == lc.name and \
+                            st.targets[0].attr in ('__qualname__', '__module__', '__name__'):
+                        sets.append(st)
                 if not pubs:
                     continue
                 n += 1
@@ -74,36 +72,35 @@ def r6(ctx, rep):
                 if encl:
                     env['cls'] = Obj(encl, __name__=encl.rsplit('.', 1)[-1], __qualname__=encl, __module__=mod)
                 env['__name__'] = mod
+                # the local class as the compiler leaves it; the assignments to its name attributes are then folded in source order
+                me = env[lc.name] = Obj(lc.name, __name__=lc.name, __qualname__=f'{qn}.<locals>.{lc.name}', __module__=mod)
                 it = Interp(dict(env), where=f'{mod} {qn}')
                 want = set()
                 for owner, attr, _st in pubs:
                     o = env.get(owner)
-                    if o is not None:
+                    if o is not None and o is not me:
                         want.add(f'{o.__qualname__}.{attr}')
                 if not want:
                     raise AnalysisError(f'{mod} {qn}: class {lc.name} is published under {[(o_, a_) for o_, a_, _ in pubs]}, owner not resolved')
-                if not qsets:
-                    got = f'{qn}.<locals>.{lc.name}'
-                else:
+                last = {}
+                for st in sorted(sets, key=lambda x: (x.lineno, x.col_offset)):
                     try:
-                        got = it.ev(qsets[-1].value, dict(env))
+                        setattr(me, st.targets[0].attr, it.ev(st.value, dict(env)))
                     except Exception as e:
-                        raise AnalysisError(f'{mod} {qn}: `{astq.u(qsets[-1])}` does not fold: {e}')
+                        raise AnalysisError(f'{mod} {qn}: `{astq.u(st)}` does not fold: {e}')
+                    last[st.targets[0].attr] = st
+                got = me.__qualname__
                 ok = got in want
                 rep.instance(R6, ok=ok, nontrivial=(mod, qn, lc.name))
                 if not ok:
-                    rep.finding(R6, f'C14.R6/{mod}:{qn}/{lc.name}/qualname', m.loc(mod, qsets[-1] if qsets else lc), qn,
+                    rep.finding(R6, f'C14.R6/{mod}:{qn}/{lc.name}/qualname', m.loc(mod, last.get('__qualname__', lc)), qn,
                                 f'class {lc.name} is published as {sorted(want)} but its __qualname__ is {got!r}: pickle looks the class up by that path and '
                                 f'fails, so every item that carries the class (a system predicate and any sentence or argument containing one) cannot be pickled')
-                for st in msets:
-                    try:
-                        gotm = it.ev(st.value, dict(env))
-                    except Exception as e:
-                        raise AnalysisError(f'{mod} {qn}: `{astq.u(st)}` does not fold: {e}')
-                    okm = gotm == mod
-                    rep.instance(R6, ok=okm, nontrivial=(mod, qn, lc.name, '__module__'))
-                    if not okm:
-                        rep.finding(R6, f'C14.R6/{mod}:{qn}/{lc.name}/module', m.loc(mod, st), qn, f'class {lc.name} lives in {mod} but its __module__ is set to {gotm!r}')
+                okm = me.__module__ == mod
+                rep.instance(R6, ok=okm, nontrivial=(mod, qn, lc.name, '__module__'))
+                if not okm:
+                    rep.finding(R6, f'C14.R6/{mod}:{qn}/{lc.name}/module', m.loc(mod, last.get('__module__', lc)), qn,
+                                f'class {lc.name} lives in {mod} but its __module__ is set to {me.__module__!r}')
     gna, owner = m.method(ClassRef(LEX, 'Predicated'), '__getnewargs__')
     if gna is None or not hasattr(gna, 'node'):
         raise AnalysisError('lex.py: no __getnewargs__ reachable from Predicated')
